@@ -335,9 +335,11 @@ func cmdCheck(args []string) {
 			"config":         v.Obl.Config,
 		}
 		confirmed := false
-		if rr := tryReplay(*repo, v.Obl); rr != nil {
-			rec["replay"] = rr
-			confirmed = rr.Confirmed
+		if v.Obl.eng != nil && v.Obl.key != "" && i < 12 {
+			if rr := v.Obl.eng.tryReplay(v.Obl, v.Obl.key, outDir, i+1); rr != nil {
+				rec["replay"] = rr
+				confirmed = rr.Confirmed
+			}
 		}
 		if v.Obl.query != "" {
 			qf := filepath.Join(outDir, "replays", fmt.Sprintf("violation_%03d.smt2", i+1))
@@ -458,15 +460,6 @@ func assumptionsFor(prop string) []string {
 		"A10: blas64/lapack64 use the default pure-Go implementation",
 	}
 }
-
-type replayResult struct {
-	Confirmed bool   `json:"confirmed"`
-	Test      string `json:"test,omitempty"`
-	Command   string `json:"command,omitempty"`
-	Output    string `json:"output,omitempty"`
-}
-
-func tryReplay(repo string, o *Obl) *replayResult { return nil }
 
 // VerifyLemmas discharges the stand-alone lemmas of the contract files that
 // are attributed to prop ("" = all).
